@@ -109,6 +109,18 @@ def check_superdict(ck, col, kind, label, d, crys, chem, super_n, sd, warns, spe
 
     c_def, c_inv, c_move, c_eq, c_none, m_def, m_inv, m_move, m_eq, m_none = [], [], [], [], [], [], [], [], [], []
     rep0 = dict(cfg=spec, calculator=kind)
+    # ---- the closest-site search behind sup[position] = species: the position of site k must resolve to k ----------
+    wrong = []
+    for k in range(N):
+        try:
+            r = anysup.index(anysup.pos[k])
+        except Exception as e:
+            r = repr(e)
+        stats["index_lookups"] += 1
+        if r != k: wrong.append((k, r))
+    if wrong:
+        col.violation("c29-index", "%s %s: Supercell.index(position of site k) != k for (k, result) = %s" % (label, super_n.tolist(), wrong[:6]),
+                      dict(rep0, wrong=wrong[:20], positions=[anysup.pos[k].tolist() for k, _ in wrong[:6]]))
     # ---- reference supercell ----------------------------------------------------------------------
     if kind == "vacancy":
         if "reference" not in sd or [int(x) for x in sd["reference"].occ] != ref:
@@ -272,6 +284,17 @@ def check_superdict(ck, col, kind, label, d, crys, chem, super_n, sd, warns, spe
     return body, meta
 
 
+def first_percolating(crys, chem, maxshell=14, maxjumps=150):
+    """smallest neighbour-shell cutoff whose jump network percolates in every direction (for crystals with very short hops)"""
+    n = len(crys.basis[chem])
+    for r in gen.shells(crys, chem)[:maxshell]:
+        jn = crys.jumpnetwork(chem, r + 1e-4)
+        if sum(len(t) for t in jn) > maxjumps: break
+        D = gen.exact_unitcell_D(n, jn, np.ones(n) / n, [[1.0] * len(t) for t in jn], 3)
+        if np.linalg.eigvalsh(0.5 * (D + D.T)).min() > 1e-6: return r + 1e-4, crys.sitelist(chem), jn
+    return None
+
+
 def supercell_matrices(rng, crys, n):
     # always one cell that is large enough to tell R from -R (3x3x3 when it has <= 60 sites), then random ones
     out = [(3 if crys.N * 27 <= 60 else 2) * np.eye(3, dtype=int)]
@@ -296,7 +319,7 @@ def run(ck):
     from onsager import OnsagerCalc, crystal
     col = Collector(ck)
     stats = dict(states=0, transitions=0, mappings=0, mappings_none=0, states_folded=0, transitions_folded=0, warning_cells=0,
-                 cells_too_small=0, skipped_irrational=0, dictionaries=0, omega0_cross_wyckoff=0, multi_wyckoff_host_dictionaries=0)
+                 cells_too_small=0, skipped_irrational=0, dictionaries=0, omega0_cross_wyckoff=0, multi_wyckoff_host_dictionaries=0, index_lookups=0, near_coincident_dictionaries=0)
     skipped = {"nonpercolating": 0, "construct-failed": 0, "too-many-states": 0}
     jobs = []
     ncalc = ck.n(3, 18)
@@ -359,6 +382,38 @@ def run(ck):
     if stats["multi_wyckoff_host_dictionaries"] == 0:
         col.violation("c29-generator-precondition", "no interstitial calculator in a host with two Wyckoff positions of one chemistry could be built "
                       "from the fixed hosts (site lists / jump networks of the fixed crystals are not what they are by construction)", dict(hosts=[h[0] for h in hosts]))
+    # nearly coincident sites on the defect sublattice (split interstitial pair 0.01..0.05 apart in unit-cell coordinates) in
+    # supercells so large that the separation is far below 1% of the supercell edge: positions must still resolve to the right site
+    splits = [("split interstitial pair along z, delta=0.012", crystal.Crystal(np.diag([1., 1., 1.25]),
+               [[A_(0, 0, 0)], [A_(.5, .5, .5 - .012), A_(.5, .5, .5 + .012)]], chemistry=["M", "O"]), 1, [np.diag([1, 1, 8]), np.diag([3, 3, 5])]),
+              ("split interstitial pair along x, delta=0.02", crystal.Crystal(np.diag([1., 1.1, 1.25]),
+               [[A_(0, 0, 0)], [A_(.5 - .02, .5, .5), A_(.5 + .02, .5, .5)]], chemistry=["M", "O"]), 1, [np.diag([8, 1, 1]), 4 * np.eye(3, dtype=int)]),
+              ("split vacancy-site pair along z, delta=0.006", crystal.Crystal(np.diag([1., 1., 1.25]),
+               [[A_(0, 0, .25 - .006), A_(0, 0, .25 + .006)]], chemistry=["M"]), 0, [np.diag([1, 1, 8])])]
+    for label, crys, chem, mats in splits:
+        vac = label.startswith("split vacancy")
+        if vac and ck.quick: continue
+        try:
+            cut, sl, jn = first_percolating(crys, chem)
+            d = OnsagerCalc.VacancyMediated(crys, chem, sl, jn, 1) if vac else OnsagerCalc.Interstitial(crys, chem, sl, jn)
+        except Exception as e:
+            col.violation("c29-exception", "%s: calculator could not be built: %r" % (label, e), dict(label=label, exception=repr(e))); continue
+        for super_n in (mats[:1] if ck.quick else mats):
+            super_n = np.array(super_n, dtype=int)
+            spec = dict(label=label, lattice=crys.lattice.tolist(), basis=[[u.tolist() for u in b] for b in crys.basis], chem=chem,
+                        cutoff=cut, supercell=super_n.tolist())
+            with warnings.catch_warnings(record=True) as warns:
+                warnings.simplefilter("always")
+                try:
+                    sd = d.makesupercells(super_n)
+                except Exception as e:
+                    col.violation("c29-exception", "%s %s: makesupercells raised %r" % (label, super_n.tolist(), e), dict(cfg=spec, exception=repr(e)))
+                    continue
+            stats["dictionaries"] += 1
+            stats["near_coincident_dictionaries"] += 1
+            jobs.append(check_superdict(ck, col, "vacancy" if vac else "interstitial", label, d, crys, chem, super_n, sd, list(warns), spec, stats))
+    if stats["near_coincident_dictionaries"] == 0:
+        col.violation("c29-generator-precondition", "no supercell dictionary for the crystals with nearly coincident sites could be built", dict(crystals=[x[0] for x in splits]))
     # vacancy-mediated calculators whose diffusing species occupies several Wyckoff positions, with a network that contains
     # jumps between inequivalent positions (omega0 endpoints then belong to different lone-vacancy states)
     def A(*x): return np.array(x, dtype=float)
@@ -479,7 +534,7 @@ def replay(ck, path):
     super_n = np.array(c["supercell"], dtype=int)
     col = Collector(ck)
     stats = dict(states=0, transitions=0, mappings=0, mappings_none=0, states_folded=0, transitions_folded=0, warning_cells=0,
-                 cells_too_small=0, skipped_irrational=0, dictionaries=0, omega0_cross_wyckoff=0, multi_wyckoff_host_dictionaries=0)
+                 cells_too_small=0, skipped_irrational=0, dictionaries=0, omega0_cross_wyckoff=0, multi_wyckoff_host_dictionaries=0, index_lookups=0, near_coincident_dictionaries=0)
     with warnings.catch_warnings(record=True) as warns:
         warnings.simplefilter("always")
         try:
